@@ -4,7 +4,7 @@ SPEC = {
     "props_file": "C01.v",
     "targets": ["theories/Props/C01.vo", "theories/Term/Check.vo", "theories/Term/Cover.vo"],
     "fail_text": "status Solved but the returned (x,s,z), re-evaluated exactly against the original data, fail the documented termination test by more than the rounding slack",
-    "direct_keys": ["lengths_ok"],
+    "direct_keys": ["lengths_ok", "keep_agree"],
     "rule": "one evaluation = one solver run ending Solved, re-evaluated in exact dyadic arithmetic by the proved-sound checker chk_termtest against the user's original P,q,A,b,cones; non-trivial = problem with at least 2 variables or constraints; distinct = distinct problem JSON (data + settings)",
     "level": "proof",
     "explanation": "Coq theorems (Props/C01.v): checker soundness chk_termtest = Holds -> TermTest over the reals on the original data (per-run certificate), the un-scaling algebra of the residuals/costs (internal scaled residual / (c tau) = user-coordinates residual of the returned point), and decision soundness of is_solved/check_convergence on the Gallina transcription of info.rs. Every solver run of the generated stream that ends Solved is certified by evaluating the checker inside Coq (vm_compute); the decision functions are tied bit-exactly on binary64.",
